@@ -263,6 +263,10 @@ class Tr:
             return z3.Or(*[self.trb(a) for a in c.args])
         if isinstance(c, sympy.Not):
             return z3.Not(self.trb(c.args[0]))
+        if isinstance(c, sympy.ITE):
+            return z3.If(self.trb(c.args[0]), self.trb(c.args[1]), self.trb(c.args[2]))
+        if isinstance(c, (sympy.Xor,)):
+            return z3.Xor(self.trb(c.args[0]), self.trb(c.args[1]))
         if isinstance(c, sympy.Symbol):
             return self.var(c.name) != 0
         raise Unsupported(f'boolean {type(c).__name__}: {c}')
@@ -382,7 +386,7 @@ class Equiv:
         self.solver_s = 0.0
         self.stats = dict(unsat=0, sat_confirmed=0, sat_unreplayable=0, unknown=0, unsupported=0)
 
-    def check(self, lhs, rhs, extra=None, rounds=4):
+    def check(self, lhs, rhs, extra=None, rounds=4, tol=None):
         """returns (verdict, info): verdict in 'equal' | 'differ' | 'inconclusive'."""
         try:
             tr = Tr()
@@ -392,7 +396,16 @@ class Equiv:
         except Unsupported as e:
             self.stats['unsupported'] += 1
             return 'inconclusive', dict(reason=f'unsupported: {e}')
-        cons = tr.axioms() + tr.side + pre + [a != b]
+        if tol is None:
+            neq = a != b
+        else:
+            # equality up to a relative tolerance (used where pharmpy folds constants in floating point)
+            absa = z3.If(a >= 0, a, -a)
+            absb = z3.If(b >= 0, b, -b)
+            r = sympy.Rational(repr(float(tol)))
+            scale = z3.RealVal(f'{r.p}/{r.q}') * (1 + absa + absb)
+            neq = z3.Or(a - b > scale, b - a > scale)
+        cons = tr.axioms() + tr.side + pre + [neq]
         blocked = []
         for _ in range(rounds):
             r, m, dt = solve(cons + blocked, self.timeout_ms)
